@@ -1,5 +1,5 @@
 """Server-side target classes for the end-to-end harnesses (a normally named module, so that class tags are serialisable)."""
-from Pyro5 import server
+from Pyro5 import server, client, core
 from Pyro5.callcontext import current_context
 
 
@@ -129,6 +129,25 @@ class Accum(object):
 
 class CustomError(Exception):
     """an exception class the receiving side does not know (not a builtin, not a Pyro5 error)"""
+
+
+# application subclasses of Pyro's own serialisable classes, loaded in the receiving process (custom handshake validation and the
+# like): still application classes - a peer must not be able to have them built by naming them
+class AppProxy(client.Proxy):
+    def __setstate__(self, state):
+        Canary.log.append(("AppProxy.__setstate__",))
+        client.Proxy.__setstate__(self, state)
+
+
+class AppURI(core.URI):
+    def __setstate__(self, state):
+        Canary.log.append(("AppURI.__setstate__",))
+        core.URI.__setstate__(self, state)
+
+
+class AppDaemon(server.Daemon):
+    def __setstate__(self, state):
+        Canary.log.append(("AppDaemon.__setstate__",))
 
 
 class RegisteredError(Exception):
